@@ -161,7 +161,7 @@ class C12(OptEngineBase):
     PROBES = [
         "early_stop", "stop_at_i1", "hit_max_iter_converged", "hit_max_iter_not_converged", "chi2_increase_seen", "nan_chi2",
         "chi2_exact_zero", "split_ge_3", "clock_backwards", "clock_frozen", "stdout_failed", "clone_after_abort", "clone_checked",
-        "table_parsed", "table_unparsed", "stop_rule_ambiguous", "stdout_none", "str_parsed", "singular_raised_as_error", "called_with_defaults", "interrupted_in_user_code", "nonunit_vertex_quaternion", "user_edit_between_calls", "graph_pickled_or_deepcopied_between_calls",
+        "table_parsed", "table_unparsed", "stop_rule_ambiguous", "stdout_none", "str_parsed", "singular_raised_as_error", "called_with_defaults", "interrupted_in_user_code", "nonunit_vertex_quaternion", "user_edit_between_calls", "graph_pickled_or_deepcopied_between_calls", "verbosity_flip_on_natural_failure",
     ]
 
     def generate(self, rng, tier, index):
@@ -343,7 +343,8 @@ class C12(OptEngineBase):
                     kw["tol"] = 0
                 # fresh clone of the visible state, taken before the call
                 C = None
-                if not dry and (op.get("clone_check") or force_clone):
+                werr = (case.get("config") or {}).get("warnings", {}).get("kind") == "error"
+                if not dry and (op.get("clone_check") or force_clone or werr):
                     C = graphs.clone(A)
                 w.clock.kind = op.get("clock", "steady")
                 if w.clock.kind == "frozen" and not dry:
@@ -382,6 +383,30 @@ class C12(OptEngineBase):
                     natural = type(raised).__name__ == "MatrixRankWarning" and (case.get("config") or {}).get("warnings", {}).get("kind") == "error"
                     if natural:
                         res.probe("singular_raised_as_error")
+                    if natural and C is not None and not fired_kinds:
+                        # the same call with the other verbosity on a fresh clone must end the same way (printing does
+                        # not alter results -- including *whether* there is a result)
+                        res.n_checks += 1
+                        saved_op, saved_kind, saved_out = w.log.op_index, w.clock.kind, w.stdout
+                        import sys as _sys
+
+                        saved_sys = _sys.stdout
+                        w.log.op_index = BENIGN - 900 - i
+                        w.set_stdout({"kind": "memory"})
+                        other = None
+                        try:
+                            C.optimize(verbose=not op["verbose"], **kw)
+                        except Exception as e2:  # noqa
+                            other = e2
+                        finally:
+                            w.log.op_index, w.clock.kind, w.stdout = saved_op, saved_kind, saved_out
+                            _sys.stdout = saved_sys
+                        res.probe("verbosity_flip_on_natural_failure")
+                        if type(other) is not type(raised):
+                            res.violate("C12:verbose-changes-outcome", "op %d optimize(verbose=%r) raised %s on a singular system (warnings are errors), "
+                                        "the same call with verbose=%r on a fresh clone %s" % (i, op["verbose"], type(raised).__name__, not op["verbose"],
+                                                                                             "returned normally" if other is None else "raised " + type(other).__name__))
+                            break
                     interrupted = isinstance(raised, SimulatedInterrupt) and "interrupt" in fired_kinds
                     if interrupted:
                         res.probe("interrupted_in_user_code")
